@@ -280,7 +280,11 @@ func decorate(r *core.Rand, rules []hsim.MRule) string {
 		if r.Chance(1, 3) {
 			q = "'"
 		}
-		b.WriteString("F.M[" + q + m.Name + q + "]" + ws() + "=" + ws() + num(m.U) + ws() + ";" + ws() + "Retract(" + q + m.Name + q + ")" + ws() + ";" + ws() + "}" + ws())
+		extra := ""
+		if m.StrLit != "" {
+			extra = "F.MS[" + q + m.Name + q + "]" + ws() + "=" + ws() + m.StrLit + ws() + ";" + ws()
+		}
+		b.WriteString("F.M[" + q + m.Name + q + "]" + ws() + "=" + ws() + num(m.U) + ws() + ";" + ws() + extra + "Retract(" + q + m.Name + q + ")" + ws() + ";" + ws() + "}" + ws())
 	}
 	return b.String()
 }
@@ -404,6 +408,14 @@ func lhScenario(prop string, seed uint64) *core.Scenario {
 							d = "'" + d + "'"
 						}
 						op.Rules[j].Desc = &d
+					}
+				}
+				for j := range op.Rules {
+					if r.Chance(1, 3) {
+						lits := [][2]string{{`'it\'s'`, "it's"}, {`"say \"hi\""`, `say "hi"`}, {`"tab\there"`, "tab\there"}, {`'uni\u00e9'`, "uni\u00e9"}, {`"back\\slash"`, `back\slash`},
+							{`'dq " inside'`, `dq " inside`}, {`"sq ' inside"`, "sq ' inside"}, {`''`, ""}, {`"\x41\101"`, "AA"}, {`'new\nline'`, "new\nline"}}
+						l := lits[r.Intn(len(lits))]
+						op.Rules[j].StrLit, op.Rules[j].Str = l[0], l[1]
 					}
 				}
 				op.Text = decorate(r, op.Rules)
